@@ -321,6 +321,10 @@ def random_program(rnd, nleaves=(2, 4), nsteps=(4, 12), p_pass=0.22, handles=Tru
         elif x < p_pass + 0.08:
             h = g.pick()
             g.steps.append({"op": "clear", "args": [h], "how": rnd.choice(["replace", "mut"])})
+        elif x < p_pass + 0.1:
+            h = g.pick()
+            d = g.H[h]["d"]
+            g.steps.append({"op": "setgrad", "args": [h], "g": tensor(d, [rnd.choice([1, -2, 3, F(1, 2)]) for _ in range(prod(d))])})
         elif x < p_pass + 0.14:
             h = g.pick()
             res = g.nh + 1
@@ -946,4 +950,101 @@ def rank1_matmul_cases(tier, seed):
                                 cases.append(st)
     if tier != "thorough" and len(cases) > 700:
         cases = rnd.sample(cases, 700)
+    return cases
+
+
+# ---------------------------------------------------------------------------------------------
+# the same array at several operand positions, and expressions that cancel or repeat (x / x, a - a, a x a^T, ...)
+def self_operand_cases(tier, seed):
+    rnd = random.Random(seed)
+    cases = []
+    for d in ([2], [3], [2, 2], [2, 3]):
+        n = prod(d)
+        pw = [(1 if k % 3 else -1) * F(2) ** ((k % 3) - 1) for k in range(n)]
+        mixed = [F((k % 5) - 2, 1 << (k % 2)) if (k % 5) != 2 else 3 for k in range(n)]
+        progs = [
+            ("div_self", pw, [op("div", [1, 1], 10)]),
+            ("sub_self", mixed, [op("sub", [1, 1], 10)]),
+            ("mul_self", mixed, [op("mul", [1, 1], 10)]),
+            ("add_self", mixed, [op("add", [1, 1], 10)]),
+            ("axpy_self", mixed, [op("axpy", [1, 1], 10, alpha=sc(0))]),
+            ("axpy_one", mixed, [op("axpy", [1, 1], 10, alpha=sc(1))]),
+            ("neg_neg", mixed, [op("neg", [1], 9), op("neg", [9], 10)]),
+            ("relu_and_direct", mixed, [op("relu", [1], 9), op("mul", [9, 1], 10)]),
+            ("scale_one", mixed, [op("scale", [1], 9, c=sc(1)), op("mul", [9, 1], 10)]),
+            ("powf_one", mixed, [op("powf", [1], 9, p={"n": 1}), op("add", [9, 1], 10)]),
+            ("sub_shared", mixed, [op("mul", [1, 1], 8), op("sub", [8, 1], 9), op("sub", [1, 9], 10)]),
+            ("div_num_also_den", pw, [op("mul", [1, 1], 9), op("div", [9, 1], 10)]),
+            ("reshape_twice", mixed, [op("reshape", [1], 8, d=[n]), op("reshape", [8], 9, d=[1, n]), op("reshape", [9], 10, d=d)]),
+            ("sum_reshape_back", mixed, [op("sum", [1], 9, k=len(d)), op("add", [9, 1], 10)]),
+            ("two_consumers_two_passes", mixed, [op("mul", [1, 1], 9), op("neg", [9], 10), op("scale", [9], 11, c=sc(3))]),
+        ]
+        if len(d) == 2:
+            progs.append(("matmul_self_t", mixed, [op("matmul", [1, 1], 10, ta=False, tb=True)]))
+            progs.append(("matmul_self_t2", mixed, [op("matmul", [1, 1], 10, ta=True, tb=False)]))
+        for name, vals, ops in progs:
+            steps = [RESET, leaf(1, d, vals, trk=True)] + ops
+            od = {"matmul_self_t": [d[0], d[0]], "matmul_self_t2": [d[-1], d[-1]]}.get(name, d)
+            steps.append(backward(10, seed_tensor(od, k0=2)))
+            if name == "two_consumers_two_passes":
+                steps.append(backward(11, seed_tensor(d, k0=5)))
+                steps.append(backward(9))
+            steps += grads_of([1])
+            cases.append(steps)
+    return cases
+
+
+# ---------------------------------------------------------------------------------------------
+# which handle decides whether an interior node stores its gradient: flags set on a result or on a clone of it,
+# before or after it is used, passes started from either handle
+def keep_flag_cases(tier, seed):
+    cases = []
+    flagops = [None, "untracked", "stop", "tracked", "start"]
+    for on_clone_first in flagops:
+        for on_orig_then in flagops:
+            for use in ("root_orig", "root_clone", "operand_orig", "operand_clone", "operand_both"):
+                for when in ("before_use", "after_use"):
+                    steps = [RESET, leaf(1, [2], [2, -3], trk=True), leaf(2, [2], [1, 4], trk=True),
+                             op("mul", [1, 2], 3), {"op": "clone", "args": [3], "res": 4}]
+                    flips = []
+                    if on_clone_first:
+                        flips.append({"op": on_clone_first, "args": [4]})
+                    if on_orig_then:
+                        flips.append({"op": on_orig_then, "args": [3]})
+                    if when == "before_use":
+                        steps += flips
+                    root = None
+                    if use == "root_orig":
+                        root = 3
+                    elif use == "root_clone":
+                        root = 4
+                    else:
+                        a = {"operand_orig": [3, 1], "operand_clone": [4, 1], "operand_both": [3, 4]}[use]
+                        steps.append(op("add", a, 5))
+                        root = 5
+                    if when == "after_use":
+                        steps += flips
+                    steps.append(backward(root, seed_tensor([2])))
+                    steps += [{"op": "grad", "args": [3], "res": 90}, {"op": "grad", "args": [4], "res": 91}, {"op": "grad", "args": [1], "res": 92}]
+                    steps.append(backward(root))
+                    cases.append(steps)
+    # a clone taken AFTER the original's flags were changed, and flag changes on a fresh clone AFTER a pass
+    for first in ("stop", "untracked", "start", "tracked"):
+        for second in (None, "start", "tracked", "stop", "untracked"):
+            for use in ("root_clone", "operand_clone", "root_orig"):
+                steps = [RESET, leaf(1, [2], [2, -3], trk=True), leaf(2, [2], [1, 4], trk=True), op("mul", [1, 2], 3),
+                         {"op": first, "args": [3]}, {"op": "clone", "args": [3], "res": 4}]
+                if second:
+                    steps.append({"op": second, "args": [4]})
+                if use == "operand_clone":
+                    steps.append(op("add", [4, 1], 5))
+                root = {"root_clone": 4, "operand_clone": 5, "root_orig": 3}[use]
+                steps.append(backward(root, seed_tensor([2])))
+                steps += [{"op": "grad", "args": [3], "res": 90}, {"op": "grad", "args": [4], "res": 91}]
+                # after the pass: flags on a fresh clone must not disturb the stored gradients
+                steps += [{"op": "clone", "args": [3], "res": 6}, {"op": "untracked" if first != "untracked" else "tracked", "args": [6]},
+                          {"op": "clone", "args": [1], "res": 7}, {"op": "untracked", "args": [7]},
+                          {"op": "grad", "args": [3], "res": 93}, {"op": "grad", "args": [1], "res": 94}]
+                steps.append(backward(root))
+                cases.append(steps)
     return cases
